@@ -828,7 +828,7 @@ pub fn streamsm(trace: &[Value]) -> Vec<Value> {
                             o => o,
                         };
                         out.push(json!({"ev":"Op","side":side,"op":"read","id":e["id"],"res":res,
-                            "code":e["res"].get("code").map_or(-1, cap),"arg":-1,"closed":closed}));
+                            "code":e["res"].get("code").map_or(-1, cap),"arg":if e["ordered"] == false { 0 } else { 1 },"closed":closed}));
                     }
                     "open" | "accept" => {
                         out.push(json!({"ev":"Op","side":side,"op":op,"id":e["res"].get("id").map_or(-1, cap),
